@@ -108,7 +108,7 @@ def scenario(ctx, cfg):
             obs.append(D.fact_ob('result shape equals input shape', ('shape_is', 0, list(shape)), group='shape'))
         else:
             obs.append(D.fact_ob('same-shaped inputs of rank %d are accepted' % len(shape), ('declared_outcome', 0), group='shape-outcome'))
-        return obs
+        return obs + D.inputs_unchanged_obs(r)
     if kind == 'perm':
         t = cfg['t']
         fn = list(range(n))
@@ -119,7 +119,8 @@ def scenario(ctx, cfg):
         obs = [D.fact_ob('same outcome for the rearranged inputs', ('same_outcome', 0, 1), group='perm-outcome'),
                D.fact_ob('same result shape', ('same_shape', 0, 1), group='perm-shape')]
         # cell i of the second run corresponds to cell fn[i] of the first
-        return obs + D.equal_results_obs(r0, r1, 'cells %d,%d swapped in all inputs' % (t, t + 1), 'perm', perm=fn)
+        # (the rearranged inputs stand for views of the same fields: the first run must have left them alone)
+        return obs + D.inputs_unchanged_obs(r0) + D.equal_results_obs(r0, r1, 'cells %d,%d swapped in all inputs' % (t, t + 1), 'perm', perm=fn)
     if kind == 'reshape':
         shape2 = tuple(cfg['shape2'])
         fn = list(range(n))
@@ -131,7 +132,7 @@ def scenario(ctx, cfg):
             obs.append(D.fact_ob('result shape equals input shape', ('shape_is', 0, list(shape)), group='shape'))
         if r1.outcome == 'ok':
             obs.append(D.fact_ob('result shape equals input shape', ('shape_is', 1, list(shape2)), group='shape'))
-        return obs + D.equal_results_obs(r0, r1, 'inputs reshaped %s -> %s' % (list(shape), list(shape2)), 'reshape')
+        return obs + D.inputs_unchanged_obs(r0) + D.equal_results_obs(r0, r1, 'inputs reshaped %s -> %s' % (list(shape), list(shape2)), 'reshape')
     raise ValueError(kind)
 
 
